@@ -128,6 +128,8 @@ FIXED = [
     {"kind": "expr", "i": -3, "layout": "rootpkg", "cwd": "other-env", "cfgname": ".mockery.yaml", "iface": "reader", "what": "env-config",
      "exprs": {"structname": "{{.Mock}}{{.InterfaceName | firstUpper}}", "dir": "{{.ConfigDir}}/gen", "filename": "{{.InterfaceName}}.go", "pkgname": "{{.SrcPackageName}}x"}},
     KF_IDR,
+    {"kind": "expr", "i": -6, "layout": "initialism", "cwd": "cfgdir", "cfgname": ".mockery.yml", "iface": "Uri", "what": "initialisms", "srcfile": "iface.go", "linedir": None,
+     "exprs": {"structname": "M{{ .InterfaceName | exported }}{{ \"utf8\" | exported }}{{ \"id\" | exported }}", "dir": "out/{{ .SrcPackageName | exported }}", "filename": "m.go", "pkgname": "m"}},
     {"kind": "expr", "i": -4, "layout": "nested", "cwd": "cfgdir", "cfgname": ".mockery.yml", "iface": "UserService", "what": "file-and-suffix", "srcfile": "catalog.go", "linedir": None,
      "exprs": {"structname": "M{{ .InterfaceName | trimSuffix \"Service\" }}", "dir": "{{.InterfaceFile | dir}}/m", "filename": "{{ .InterfaceFile | base | trimSuffix \".go\" }}_mock.go", "pkgname": "m"}},
     {"kind": "expr", "i": -5, "layout": "sub", "cwd": "cfgdir", "cfgname": ".mockery.yml", "iface": "Store", "what": "line-directive", "srcfile": "billing.go", "linedir": "gen/grammar.y:9",
